@@ -359,21 +359,25 @@ pub fn candle_spec_strategy() -> impl Strategy<Value = CandleSpec> {
 }
 
 /// Valid candles by construction: low <= open, close <= high, positive prices, volume >= 0.
-/// Prices are kept inside [1e-4, 1e7] so that price*volume and squares stay far from overflow.
+/// Prices are kept inside [1e-4, 1e7] so that price*volume and squares stay far from overflow; one stream in
+/// seven (f64 builds) lives at a tiny price scale instead, 1e-12 .. 1e-6 (the code imposes no lower limit
+/// on prices, and absolute thresholds such as `< EPSILON` only show there).
 pub fn build_candles(spec: &CandleSpec, n: usize, max_len: usize) -> Vec<C5> {
 	let mut p = spec.price.clone();
-	p.base_exp = p.base_exp.clamp(-3, 5);
+	let tiny = p.base_exp < -5 && std::mem::size_of::<ValueType>() == 8;
+	p.base_exp = if tiny { p.base_exp.clamp(-12, -6) } else { p.base_exp.clamp(-3, 5) };
+	let floor = if tiny { 10f64.powi(p.base_exp as i32 - 2) } else { 1e-4 };
 	let prices = build_stream(&p, n, max_len, Domain::Positive);
 	let vols = build_stream(&spec.volume, n, max_len, Domain::NonNegative);
 	let mut out = Vec::with_capacity(prices.len());
-	let mut prev_close = prices[0].clamp(1e-4, 1e7);
+	let mut prev_close = prices[0].clamp(floor, 1e7);
 	for (i, &c0) in prices.iter().enumerate() {
-		let c = vt(c0.clamp(1e-4, 1e7));
+		let c = vt(c0.clamp(floor, 1e7));
 		let w = spec.shape[i % spec.shape.len()] as u64;
 		let r = crate::engine::mix(w, (i / spec.shape.len()) as u64);
 		// open: previous close (no gap) mostly, sometimes a gap, sometimes equal to close
 		let o = match r % 8 {
-			0 => vt((prev_close * (1.0 + ((r >> 8) % 1000) as f64 * 1e-4 - 0.05)).clamp(1e-4, 1e7)),
+			0 => vt((prev_close * (1.0 + ((r >> 8) % 1000) as f64 * 1e-4 - 0.05)).clamp(floor, 1e7)),
 			1 => c,
 			_ => prev_close,
 		};
